@@ -1,6 +1,6 @@
 """C04 - hash_based and kdtree return the same exact neighbour set as the default search."""
 from ..nnabs import MOD
-from ._nn import check_engines_stateless, check_bfs, check_edit_generators, check_encoder, check_extract, check_hash_based, check_kd, run_fga
+from ._nn import check_lookup_index, check_engines_stateless, check_bfs, check_edit_generators, check_encoder, check_extract, check_hash_based, check_kd, run_fga
 
 CLAIMED = True
 LEVEL = "other"
@@ -26,6 +26,7 @@ def run(r):
     check_bfs(r, "C04-BFS")
     check_edit_generators(r, "C04-BFS")
     check_hash_based(r, "C04-HB")
+    check_lookup_index(r, "C04-HB")
     check_engines_stateless(r, "C04-STATE", entries=("kdtree", "hash_based", "LookupDB.lookup", "LookupDB.__init__"), cds=("none",))
     run_fga(r, "C04", {"none"}, labels={"kdtree-worker", "LookupDB.lookup"}, floor=4)
     rep.floor("C04-KD-R", 1)
